@@ -389,6 +389,50 @@ func runC20(c *core.Case) {
 			chk("line-mid", vclose(spatial.Vector3(ln.ToPoint(0.5)), spatial.Vector3{X: (a.X + b.X) / 2, Y: (a.Y + b.Y) / 2, Z: (a.Z + b.Z) / 2}, 1e-12, sc)) &&
 			chk("translate", p.Translate(b.Sub(a)).IsClose(q, 1e-12*sc+1e-300)) &&
 			chk("distance", relClose(p.DistancePoint(q), b.Sub(a).Norm(), 1e-12, sc))
+		if c.Failed() {
+			return
+		}
+		// point helpers: extreme points along a direction, epsilon-unique append
+		var pts []*spatial.Point3
+		for k := r.Intn(6); k > 0; k-- {
+			v := genVec(r)
+			pts = append(pts, &spatial.Point3{X: v.X, Y: v.Y, Z: v.Z})
+		}
+		dir := genVec(r)
+		mx, e1 := spatial.MaxPoint(pts, dir)
+		mn, e2 := spatial.MinPoint(pts, dir)
+		c.Calls(2)
+		if len(pts) == 0 {
+			chk("maxpoint-empty", e1 != nil && e2 != nil && mx != nil && mn != nil && *mx == spatial.Point3{} && *mn == spatial.Point3{})
+		} else if chk("maxpoint-error", e1 == nil && e2 == nil) {
+			okx, okn := false, false
+			for _, x := range pts {
+				d := spatial.Vector3(*x).Dot(dir)
+				if d > spatial.Vector3(*mx).Dot(dir) || d < spatial.Vector3(*mn).Dot(dir) {
+					chk("maxpoint-bound", false)
+					return
+				}
+				okx = okx || x == mx
+				okn = okn || x == mn
+			}
+			chk("maxpoint-element", okx && okn)
+		}
+		if len(pts) > 0 {
+			eps := 1e-9 * sc
+			near := &spatial.Point3{X: pts[0].X + eps/2, Y: pts[0].Y, Z: pts[0].Z}
+			far := &spatial.Point3{X: pts[0].X + 1e6*sc + 1, Y: pts[0].Y, Z: pts[0].Z}
+			n0 := len(pts)
+			l1 := spatial.UniqueAppend(pts, near, eps)
+			l2 := spatial.UniqueAppend(pts, far, eps)
+			c.Calls(2)
+			isFarNew := true
+			for _, x := range pts {
+				if x.IsClose(*far, eps) {
+					isFarNew = false
+				}
+			}
+			chk("unique-append", len(l1) == n0 && (len(l2) == n0+1) == isFarNew)
+		}
 	case 4: // matrices
 		c.Tag("matrices")
 		gm := func() spatial.Matrix3 {
